@@ -454,6 +454,17 @@ def run_bias(case):
   tol = 0.51 + np.abs(exact) * 2e-6
   if np.any(unsat & (np.abs(got - exact) > tol)):
     raise Violation('bias_value', 'exact=%r got=%r' % (exact.tolist(), got.tolist()))
+  # dequantizing the stored codes with the returned parameters gives the bias
+  # back within half a step - also for 64-bit codes beyond the 32-bit range
+  ok, deq = core.call(uqt.uniform_dequantize, np.asarray(r.quantized_data), r)
+  if not ok:
+    raise Violation('bias_dequantize_raises', repr(deq))
+  deq = np.asarray(deq, np.float64).reshape(-1)
+  step = sc if sc.size == n else np.full(n, sc[0])
+  if np.any(unsat & (np.abs(deq - bias.astype(np.float64)) > step * 0.51 + np.abs(bias) * 4e-6)):
+    i = int(np.argwhere(unsat & (np.abs(deq - bias.astype(np.float64)) > step * 0.51 + np.abs(bias) * 4e-6))[0][0])
+    raise Violation('bias_dequantize', 'bias=%r code=%r scale=%r dequantized to %r' % (
+        float(bias[i]), got[i], float(step[i]), float(deq[i])))
   if want_bits == 32:
     # values beyond the 32-bit range saturate at the nearest end (never wrap)
     sat = np.abs(exact) > lim * 1.001
